@@ -176,7 +176,7 @@ def leafKind : Leaf → String
 
 def unsupportedLeaf (c : Cell) (name : Str) (r : Req) : Leaf → Bool
   | .deep sp _ => c.style = .deepObject && !deepSupported name r sp
-  | .obj sp _ ad => c.style = .deepObject && (ad.isSome || !deepSupported name r (sp.map (fun kv => (kv.1, DS.prim kv.2))))
+  | .obj sp _ _ => c.style = .deepObject && !deepSupported name r (sp.map (fun kv => (kv.1, DS.prim kv.2)))
   | _ => false
 
 def valBranch : Val → String
@@ -206,6 +206,7 @@ def handle (j : Json) : Json :=
     (if CookieExplode p then ["CookieExplode"] else []) ++
     (if EnumGoType p then ["EnumGoType"] else []) ++
     (if QueryObjAbsent p r then ["QueryObjAbsent"] else []) ++
+    (if QueryObjNoProps p then ["QueryObjNoProps"] else []) ++
     []
   let unsupported := (schLeaves sch).any (unsupportedLeaf cell name r) ||
     ((schLeaves sch).any leafHasNum && (reqStrings r).any exoticNumberText)
